@@ -14,7 +14,9 @@ def tasks(run):
     out = [('program', (name, seed, {})) for (name, seed) in models.programs(run.seed, n)]
     for (name, seed) in models.programs(run.seed + 3, 11):
         out.append(('resolve', (name, seed, 'new_iterate')))
-    out += [('program', ('T_user_lmi', v, {})) for v in (0, 1, 4, 5)]            # LMIs of equal size declared on the problem AND on a function
+    out += [('program', ('T_user_lmi', v, {})) for v in (0, 1, 4, 5, 10, 22)]    # LMIs of equal size on the problem AND on a function; LMI declared from a reused array
+    out += [('program', ('T_blocks', v, {})) for v in range(4)]                     # user constraint on the partition / an unused partition declared first
+    out += [('program', ('T_linear', 3, {})), ('program', ('T_linear', 7, {}))]   # an operator class with ONE sample: its class LMI is all there is
     out += [('program', ('T_duplicates', v, {})) for v in range(2)]
     out += [('unused_function', (k + (run.seed % 21),)) for k in range(21 if run.tier != 'quick' else 7)]       # a declared, never evaluated function adds nothing          # an object registered twice is sent once per registration
     return out
